@@ -40,6 +40,8 @@ pub enum Op {
     /// the distributor's owner rewrites the epoch configuration: a new duration (>= 1 day) and a genesis
     /// moved by `genesis_shift_h` hours (earlier or later than the original one)
     UpdateDistributorConfig { duration_ns: u64, genesis_shift_h: i16 },
+    /// the manager's admin rewrites the manager's epoch duration (>= 1 day); the configured genesis stays
+    UpdateManagerConfig { duration_ns: u64 },
 }
 
 #[derive(Clone, Debug, Serialize, Deserialize)]
@@ -50,6 +52,10 @@ pub struct Case {
     pub genesis_offset_ns: u64,
     pub initial_hooks: u8,
     pub ops: Vec<Op>,
+    /// != 0: the manager is first instantiated with a start epoch whose start time is genesis + skew
+    /// (the two redundant fields of the message disagree); the consistent message is the fall-back
+    #[serde(default)]
+    pub mgr_start_skew_ns: i64,
 }
 
 fn which() -> BoxedStrategy<Which> {
@@ -69,6 +75,7 @@ fn op() -> BoxedStrategy<Op> {
         1 => prop_oneof![6 => 0u8..3, 1 => Just(3u8)].prop_map(|idx| Op::AddHook { idx }),
         1 => prop_oneof![3 => 0u8..3, 2 => Just(3u8)].prop_map(|idx| Op::RemoveHook { idx }),
         1 => (prop_oneof![Just(DAY_NS), Just(2 * DAY_NS), DAY_NS..3 * DAY_NS], prop_oneof![Just(0i16), -72i16..240]).prop_map(|(duration_ns, genesis_shift_h)| Op::UpdateDistributorConfig { duration_ns, genesis_shift_h }),
+        1 => prop_oneof![Just(DAY_NS), Just(2 * DAY_NS), DAY_NS..3 * DAY_NS].prop_map(|duration_ns| Op::UpdateManagerConfig { duration_ns }),
     ]
     .boxed()
 }
@@ -86,6 +93,8 @@ struct EpochWorld {
     bw: BondWorld,
     manager: Addr,
     hooks: Vec<Addr>,
+    /// the manager took an instantiate message whose start epoch does not start at the configured genesis
+    inconsistent_accepted: bool,
 }
 
 impl EpochWorld {
@@ -94,22 +103,28 @@ impl EpochWorld {
         let mut bw = build_hub(DAY_NS, 2, c.duration_ns, genesis)?;
         let owner = bw.w.owner.clone();
         let code = bw.w.code.epoch_manager;
-        let manager = bw.w.instantiate(
-            code,
-            &owner,
-            &em::InstantiateMsg {
-                start_epoch: em::EpochV2 {
-                    id: 0,
-                    start_time: Timestamp::from_nanos(genesis),
-                },
-                epoch_config: em::EpochConfig {
-                    duration: Uint64::new(c.duration_ns),
-                    genesis_epoch: Uint64::new(genesis),
-                },
+        let msg = |start: u64| em::InstantiateMsg {
+            start_epoch: em::EpochV2 {
+                id: 0,
+                start_time: Timestamp::from_nanos(start),
             },
-            "epoch_manager",
-            None,
-        )?;
+            epoch_config: em::EpochConfig {
+                duration: Uint64::new(c.duration_ns),
+                genesis_epoch: Uint64::new(genesis),
+            },
+        };
+        let mut inconsistent_start = None;
+        if c.mgr_start_skew_ns != 0 {
+            let start = (genesis as i128 + c.mgr_start_skew_ns as i128).max(1) as u64;
+            if start != genesis {
+                inconsistent_start = bw.w.instantiate(code, &owner, &msg(start), "epoch_manager", None).ok();
+            }
+        }
+        let inconsistent_accepted = inconsistent_start.is_some();
+        let manager = match inconsistent_start {
+            Some(m) => m,
+            None => bw.w.instantiate(code, &owner, &msg(genesis), "epoch_manager", None)?,
+        };
         let hcode = bw.w.app.store_code(hook_contract());
         let mut hooks = vec![];
         for i in 0..3 {
@@ -122,7 +137,7 @@ impl EpochWorld {
         // created (a hook that is not notified means no new epoch), atomically
         let h = bw.w.instantiate(hcode, &owner, &HookInit { fail: true }, "hook_failing", None)?;
         hooks.push(h);
-        Ok(EpochWorld { bw, manager, hooks })
+        Ok(EpochWorld { bw, manager, hooks, inconsistent_accepted })
     }
 
     fn log(&self, i: usize) -> Vec<LoggedCall> {
@@ -145,12 +160,18 @@ impl Check for EpochClocks {
             prop_oneof![Just(0u64), Just(1u64), 0u64..2 * DAY_NS],
             0u8..4,
             prop::collection::vec(op(), 1..max_ops),
+            prop_oneof![
+                8 => Just(0i64),
+                1 => prop_oneof![Just(1i64), Just(-1), Just(3_600_000_000_000), Just(-3_600_000_000_000), Just(DAY_NS as i64), Just(-10 * DAY_NS as i64), Just(10 * DAY_NS as i64)],
+                1 => -(20 * DAY_NS as i64)..(20 * DAY_NS as i64),
+            ],
         )
-            .prop_map(|(duration_ns, genesis_offset_ns, initial_hooks, ops)| Case {
+            .prop_map(|(duration_ns, genesis_offset_ns, initial_hooks, ops, mgr_start_skew_ns)| Case {
                 duration_ns,
                 genesis_offset_ns,
                 initial_hooks,
                 ops,
+                mgr_start_skew_ns,
             })
             .boxed()
     }
@@ -163,7 +184,8 @@ impl Check for EpochClocks {
     fn test(&self, c: &Case, rec: &Rec) -> TResult {
         let mut ew = EpochWorld::build(c).map_err(|e| Fail::new(format!("world build failed: {e}")))?;
         let genesis = START_TIME_S * 1_000_000_000 + c.genesis_offset_ns;
-        let dur = c.duration_ns;
+        // the manager's configured duration (its admin may rewrite it mid-history)
+        let mut dur = c.duration_ns;
         // the distributor's own configured duration / genesis (its owner may rewrite them mid-history)
         let mut ddur = c.duration_ns;
         let mut dgenesis = genesis;
@@ -180,6 +202,22 @@ impl Check for EpochClocks {
         }
         // manager: start epoch (id 0, start = genesis) is given; distributor: nothing yet
         let mut mgr = Clock { id: 0, start_ns: genesis, started: true };
+        if c.mgr_start_skew_ns != 0 {
+            rec.class(if ew.inconsistent_accepted { "manager_inconsistent_start_accepted" } else { "manager_inconsistent_start_rejected" });
+        }
+        if ew.inconsistent_accepted {
+            // judged by the statement's own words: the first epoch starts at the genesis time the contract reports
+            let cfg: em::ConfigResponse = ew.bw.w.query(&ew.manager, &em::QueryMsg::Config {}).map_err(|e| Fail::unobservable(format!("manager Config query: {e}")))?;
+            let me: em::EpochResponse = ew.bw.w.query(&ew.manager, &em::QueryMsg::CurrentEpoch {}).map_err(|e| Fail::new(format!("manager CurrentEpoch failed: {e}")))?;
+            ensure!(
+                me.epoch.start_time.nanos() == cfg.epoch_config.genesis_epoch.u64(),
+                "the manager was instantiated with a first epoch starting at {} while its configured genesis is {} (start = genesis {:+} ns)",
+                me.epoch.start_time.nanos(),
+                cfg.epoch_config.genesis_epoch,
+                c.mgr_start_skew_ns
+            );
+            mgr.start_ns = me.epoch.start_time.nanos();
+        }
         let mut dst = Clock { id: 0, start_ns: 0, started: false };
         let mut logs: Vec<usize> = vec![0; 3];
         let mut accepted = 0;
@@ -254,6 +292,25 @@ impl Check for EpochClocks {
                     rec.class(if r.is_ok() { "distributor_epoch_config_rewritten" } else { "distributor_epoch_config_update_rejected" });
                     if r.is_ok() && dst.started {
                         rec.class("distributor_epoch_config_rewritten_after_first_epoch");
+                    }
+                }
+                Op::UpdateManagerConfig { duration_ns } => {
+                    let m = ew.manager.clone();
+                    let r = ew.bw.w.exec(
+                        &owner,
+                        &m,
+                        &em::ExecuteMsg::UpdateConfig {
+                            owner: None,
+                            epoch_config: Some(em::EpochConfig { duration: Uint64::new(*duration_ns), genesis_epoch: Uint64::new(genesis) }),
+                        },
+                        &[],
+                    );
+                    // read back what is configured now instead of assuming the update was taken
+                    let cfg: em::ConfigResponse = ew.bw.w.query(&m, &em::QueryMsg::Config {}).map_err(|e| Fail::unobservable(format!("manager Config query: {e}")))?;
+                    dur = cfg.epoch_config.duration.u64();
+                    rec.class(if r.is_ok() { "manager_duration_rewritten" } else { "manager_duration_update_rejected" });
+                    if r.is_ok() && mgr.id > 0 {
+                        rec.class("manager_duration_rewritten_after_first_creation");
                     }
                 }
                 Op::Create { which, caller, times } => {
